@@ -46,6 +46,43 @@ def alternatives(b, pos, t, depth=0, limit=24):
     return out
 
 
+INFEASIBLE = ('infeasible',)
+
+
+def simplify(t):
+    """ok(Ok{x}) -> x ; field(tuple{a, b}, i) -> element ; ok(Err{..}) / ok(from_residual(..)) -> INFEASIBLE (the success payload
+    of a value that is a failure on this alternative: the alternative cannot reach the use)"""
+    t = deep_strip(t)
+    if not isinstance(t, tuple) or not t or t[0] in ('const', 'sym', 'fn', 'param', 'var', 'unknown'):
+        return t
+    t = map_children(t, simplify)
+    if any(c == INFEASIBLE for c in (t[1:] if t[0] != 'call' and t[0] != 'agg' else (t[2] if t[0] == 'call' else t[3]))):
+        return INFEASIBLE
+    if t[0] == 'ok':
+        x = deep_strip(t[1])
+        while x[0] == 'call' and canon(x[1]).endswith("Try::branch"):
+            x = deep_strip(x[2][0])
+        if x[0] == 'agg' and x[2] in ('Ok', 'Some', 'Continue') and len(x[3]) == 1:
+            return x[3][0]
+        if (x[0] == 'agg' and x[2] in ('Err', 'None', 'Break')) or (x[0] == 'call' and canon(x[1]).endswith("FromResidual::from_residual")):
+            return INFEASIBLE
+        return ('ok', x)
+    if t[0] == 'field' and str(t[2]).isdigit():
+        x = deep_strip(t[1])
+        if x[0] == 'agg' and x[1] == 'tuple' and int(t[2]) < len(x[3]):
+            return x[3][int(t[2])]
+    return t
+
+
+def feasible_alternatives(b, pos, t):
+    out = []
+    for p2, t2 in alternatives(b, pos, t):
+        s = simplify(t2)
+        if s != INFEASIBLE:
+            out.append((p2, s))
+    return out
+
+
 def _apply_closure(prog, eff, clo_term, arg):
     cb = prog.by_id.get(clo_term[1]) if clo_term and clo_term[0] in ('agg',) else None
     if cb is None:
@@ -69,6 +106,8 @@ def _subst_closure_arg(cb, t, arg):
 
 
 def outcomes(prog, eff, b):
+    """[(pos, term, extra_facts)]: `extra_facts` are relations that hold for this alternative in addition to
+    body.facts_at(pos) (used when a combinator over an opaque value is split symbolically into its two cases)."""
     out = []
     for pos, t in b.return_terms():
         for p2, t2 in alternatives(b, pos, t):
@@ -76,26 +115,47 @@ def outcomes(prog, eff, b):
     return out
 
 
+def facts_of(b, o):
+    pos, _t, extra = o
+    return list(b.facts_at(pos)) + list(extra)
+
+
+_VARIANT_IDX = {"Option": {"None": 0, "Some": 1}, "Result": {"Ok": 0, "Err": 1}}
+
+
 def _combinators(prog, eff, b, pos, t, depth):
     t = deep_strip(t)
     if depth < 3 and t[0] == 'call' and len(t[2]) == 2 and canon(t[1]).split("::")[-2:] in (["Option", "map"], ["Result", "map"]):
+        kind = canon(t[1]).split("::")[-2]
         x, clo = deep_strip(t[2][0]), deep_strip(t[2][1])
         res = []
-        for p2, xa in alternatives(b, pos, x):
+        alts = alternatives(b, pos, x)
+        if len(alts) == 1 and deep_strip(alts[0][1])[0] not in ('agg',):
+            # opaque receiver: split symbolically on its variant
+            xx = deep_strip(alts[0][1])
+            okname, badname = ("Some", "None") if kind == "Option" else ("Ok", "Err")
+            adt = "std::option::Option" if kind == "Option" else "std::result::Result"
+            r = _apply_closure(prog, eff, clo, ('ok', xx)) if clo[0] == 'agg' else (('call', clo[1], (('ok', xx),), ()) if clo[0] == 'fn' else None)
+            if r is None:
+                return [(pos, t, ())]
+            bad = ('agg', adt, badname, ()) if kind == "Option" else ('agg', adt, badname, (('vfield', xx, 'Err', 0),))
+            return [(pos, ('agg', adt, okname, (r,)), (('discr', xx, _VARIANT_IDX[kind][okname]),)),
+                    (pos, bad, (('discr', xx, _VARIANT_IDX[kind][badname]),))]
+        for p2, xa in alts:
             xa = deep_strip(xa)
             if xa[0] == 'agg' and xa[2] in ('None',):
-                res.append((p2, xa))
+                res.append((p2, xa, ()))
             elif xa[0] == 'agg' and xa[2] == 'Err':
-                res.append((p2, xa))
+                res.append((p2, xa, ()))
             elif xa[0] == 'agg' and xa[2] in ('Some', 'Ok') and len(xa[3]) == 1:
-                r = _apply_closure(prog, eff, clo, xa[3][0])
+                r = _apply_closure(prog, eff, clo, xa[3][0]) if clo[0] == 'agg' else (('call', clo[1], (xa[3][0],), ()) if clo[0] == 'fn' else None)
                 if r is None:
-                    return [(pos, t)]
-                res.append((p2, ('agg', xa[1], xa[2], (r,))))
+                    return [(pos, t, ())]
+                res.append((p2, ('agg', xa[1], xa[2], (r,)), ()))
             else:
-                return [(pos, t)]
+                return [(pos, t, ())]
         return res
-    return [(pos, t)]
+    return [(pos, t, ())]
 
 
 def map_view(prog, eff, b):
